@@ -362,7 +362,11 @@ func (c *Chain) Project(ctx sdk.Context) map[string]any {
 		bd = append(bd, md.Base)
 		return false
 	})
-	st["burner"] = map[string]any{"epoch": a.BurnerKeeper.GetParams(ctx).EpochIdentifier, "denoms": bd}
+	listed := []any{}
+	for _, d := range c.Listed {
+		listed = append(listed, d)
+	}
+	st["burner"] = map[string]any{"epoch": a.BurnerKeeper.GetParams(ctx).EpochIdentifier, "denoms": bd, "listed": listed}
 	if c.Registry {
 		st["params"] = c.projectParams(ctx)
 	}
